@@ -43,6 +43,7 @@ struct Stats {
     boundary_blocks: u64,
     m128: u64,
     rewinds: u64,
+    locked_128k: u64,
     fingerprints: HashSet<(usize, u16, bool, &'static str, bool)>,
     sample: Option<J>,
 }
@@ -204,6 +205,13 @@ fn run_history(ctx: &Ctx, hid: u64, st: &mut Stats) {
         m.emu.set_fast_load(true);
     }
     m.emu.load_tape(Tape::Tap(mem_asset(img.clone()))).expect("load_tape");
+    // 128K in "48 BASIC" state: paging locked with ROM 1 selected; later writes to 0x7FFD are ignored
+    // by the machine and change nothing about which ROM the loader runs from
+    let locked128 = is128 && rng.chance(1, 3);
+    if locked128 {
+        m.out(0x7FFD, 0x30);
+        st.locked_128k += 1;
+    }
     let mut log: Vec<J> = vec![];
     let extra = 1 + rng.below(3) as usize;
     let n_complete = if truncated && !half_length_word { blocks.len() - 1 } else { blocks.len() };
@@ -229,6 +237,11 @@ fn run_history(ctx: &Ctx, hid: u64, st: &mut Stats) {
             }
             st.rewinds += 1;
             log.push(jobj! {"rewind"=>true});
+        }
+        if locked128 && rng.chance(1, 2) {
+            let v = *rng.pick(&[0x00u8, 0x07, 0x20, 0x0F, 0x10]);
+            m.out(0x7FFD, v);
+            log.push(jobj! {"ignored_paging_write"=>v});
         }
         let case = |info: J| {
             jobj! {"history"=>hid, "seed"=>ctx.seed, "is128"=>is128, "fastload_enabled_via"=>if via_setter {"set_fast_load"} else {"settings"},
@@ -385,6 +398,7 @@ pub fn run(ctx: &Ctx) -> Evidence {
             boundary_blocks: 0,
             m128: 0,
             rewinds: 0,
+            locked_128k: 0,
             fingerprints: HashSet::new(),
             sample: None,
         };
@@ -405,6 +419,7 @@ pub fn run(ctx: &Ctx) -> Evidence {
     let mut exits = [0u64; 5];
     let (mut reqs, mut eot, mut tr, mut lo, mut vo, mut bb, mut h, mut m128) = (0, 0, 0, 0, 0, 0, 0, 0);
     let mut rewinds = 0u64;
+    let mut locked128 = 0u64;
     for r in res {
         reqs += r.requests;
         eot += r.eot_requests;
@@ -415,6 +430,7 @@ pub fn run(ctx: &Ctx) -> Evidence {
         h += r.histories;
         m128 += r.m128;
         rewinds += r.rewinds;
+        locked128 += r.locked_128k;
         for i in 0..5 {
             exits[i] += r.exits[i];
         }
@@ -434,6 +450,7 @@ pub fn run(ctx: &Ctx) -> Evidence {
     ev.add("successful_verifies", vo as u64);
     ev.add("requests_on_buffer_boundary_blocks", bb as u64);
     ev.add("rewinds_between_requests", rewinds);
+    ev.add("histories_on_a_locked_128k_with_ignored_paging_writes", locked128);
     let names = ["parity-ok", "parity-bad", "flag-mismatch", "verify-mismatch", "out-of-bytes"];
     ev.add("exit_paths", J::Arr((0..5).map(|i| jobj! {"exit"=>names[i], "count"=>exits[i]}).collect()));
     ev.assumptions.push("stack window [SP-24,SP+4) excluded from the RAM comparison; stored ranges never overlap it".into());
